@@ -34,14 +34,14 @@ def dotSlices (a b : Array (Cx α)) (i1 j1 : Int) (n : Nat) : Cx α :=
     ell_lo = max(self.ell_min, ell_min)
     i1 = Yindex(ell_lo, -ell_lo, ell_min)
     j1 = Yindex(ell_lo, -ell_lo, self.ell_min)
-    n = Ysize(ell_lo, ell_max)
+    n = max(Ysize(ell_lo, ell_max), 0)  # (no common ell at all when ell_max < ell_lo)
     ``` -/
 def evalMatrixSlices (cal_ell_min modes_ell_max : Int) : Int × Int × Int :=
   let ell_min : Int := 0
   let ell_lo : Int := max cal_ell_min ell_min
   let i1 := Gen.Yindex ell_lo (-ell_lo) ell_min
   let j1 := Gen.Yindex ell_lo (-ell_lo) cal_ell_min
-  let n := Gen.Ysize ell_lo modes_ell_max
+  let n := max (Gen.Ysize ell_lo modes_ell_max) 0
   (i1, j1, n)
 
 /-- the array `Y` after `self.sYlm(spin_weight, R, out=Y)`: length `self.Ysize`, laid out in the calculator's
@@ -54,8 +54,8 @@ def sYlmArray (st : μ) (za : Array (Cx α)) (zgpow : Cx α) (s : Int) (cal_ell_
 
 /-- `np.matmul(mode_weights[row, i1:i1+n], Y[j1:j1+n])` for one row `f` of mode weights and one rotor.
     `st` is the H workspace after `self.H`, `za` the array of powers of zₐ, `zgpow` is `z[2]**abs(s)`.
-    (For `n < 0` the Python slices have different lengths and `np.matmul` raises; the model is meaningful for
-    `n ≥ 0` only: `Matrix.eval_slices_negative`.) -/
+    (`n ≥ 0` always, by the clamp; for `n = 0` both NumPy slices are empty — also when `i1` lies beyond the end of
+    the weights — and the contraction is the empty sum: `Matrix.eval_slices_empty`, `Matrix.evaluateMatrix_empty`.) -/
 def evaluateMatrix (st : μ) (f : Array (Cx α)) (za : Array (Cx α)) (zgpow : Cx α) (s : Int)
     (cal_ell_min cal_ell_max modes_ell_max : Int) : Cx α :=
   let sl := evalMatrixSlices cal_ell_min modes_ell_max
